@@ -5,6 +5,7 @@ import numpy as np
 
 from vf import envs, episodes, hyp
 from vf.hyp import st
+from vf.models.base import get_model, supports
 from vf.runner import Ctx
 
 PROPERTY = "C11"
@@ -40,6 +41,11 @@ BASE = {
 }
 
 
+# The MMST generator's `max_step` sizes the route buffer (`connected_nodes`); the constructor accepts a generator
+# whose max_step differs from time_limit, and the documented end of the episode is still `time_limit`.
+EXTRA_TIME = {"MMST": [(7, {"max_step": 4}), (3, {"max_step": 30})]}
+
+
 def horizon_bound(b, st_):
     n = b.name
     if n == "TSP":
@@ -67,16 +73,22 @@ def horizon_bound(b, st_):
     raise KeyError(n)
 
 
-def twin(ctx, env, entry, T, T_arg, key_words, plan=None, actions=None):
-    """Returns (types_long, types_short, actions).  Either plays a plan in the long env or replays
-    concrete actions in both."""
-    long_b = envs.bundle(env, entry, time_limit=T + 5)
-    short_b = envs.bundle(env, entry, time_limit=T_arg)
+def twin(ctx, env, entry, T, T_arg, key_words, plan=None, actions=None, extra=None):
+    """Returns (types_long, types_short, actions, explained).  Either plays a plan in the long env or
+    replays concrete actions in both.  explained: verdict of the model's documented-other-reasons
+    predicate on the short env's LAST when it came before step T (None = no model / cannot tell /
+    not applicable)."""
+    extra = extra or {}
+    long_b = envs.bundle(env, entry, time_limit=T + 5, **extra)
+    short_b = envs.bundle(env, entry, time_limit=T_arg, **extra)
     key = envs.make_key(key_words)
     sl, tl = long_b.reset(key)
     ss, ts_ = short_b.reset(key)
     types_l, types_s, acts = [], [], []
     short_done = False
+    model = _reason_model(short_b)
+    hist = [episodes.host(ss)] if model is not None else None
+    explained = None
     horizon = T + 5 + 2
     i = 0
     while i < horizon:
@@ -94,16 +106,36 @@ def twin(ctx, env, entry, T, T_arg, key_words, plan=None, actions=None):
             ss, ts_ = short_b.step(ss, a)
             types_s.append(int(ts_.step_type))
             short_done = types_s[-1] == episodes.LAST
+            if hist is not None:
+                hist.append(episodes.host(ss))
+                if short_done and len(types_s) < T:
+                    explained = model.early_end_explained(hist, [np.asarray(x) for x in acts])
         if types_l[-1] == episodes.LAST:
             break
         i += 1
-    return types_l, types_s, acts
+    return types_l, types_s, acts, explained
 
 
-def judge(env, T, types_l, types_s):
+_REASON_MODELS: dict = {}
+
+
+def _reason_model(b):
+    k = id(b)
+    if k not in _REASON_MODELS:
+        m = get_model(b)
+        _REASON_MODELS[k] = (b, m if supports(m, "early_end_explained") else None)
+    return _REASON_MODELS[k][1]
+
+
+def judge(env, T, types_l, types_s, explained=None):
     """-> list of (oracle, sig, msg), survived_to_T"""
     out = []
     L = episodes.LAST
+    if explained is False and L in types_s and types_s.index(L) + 1 < T:
+        k = types_s.index(L) + 1
+        out.append(("time_limit.early_unexplained", "LAST before the time limit although no documented reason holds",
+                    f"T={T}: LAST at step {k}; solved / finished / collision predicate of the reference model is False"))
+        return out, False
     # agreement strictly before step T (1-based step number k = index + 1)
     for k in range(1, min(T, len(types_s) + 1, len(types_l) + 1)):
         if k - 1 < len(types_s) and k - 1 < len(types_l) and types_s[k - 1] != types_l[k - 1]:
@@ -142,6 +174,9 @@ def work_items(tier, flt):
             for T in Ts:
                 items.append({"kind": "time", "env": env, "entry": entry, "T": T, "T_arg": T,
                               "n": max(2, int((10 if tier == "quick" else 60) * scale)), "cost": 2})
+            for T, extra in EXTRA_TIME.get(env, []) if entry == BASE[env][0] else []:
+                items.append({"kind": "time", "env": env, "entry": entry, "T": T, "T_arg": T, "extra": extra,
+                              "n": max(2, int((10 if tier == "quick" else 60) * scale)), "cost": 2})
             dflt = envs.TIME_LIMITED[env]
             if dflt is None:
                 items.append({"kind": "time", "env": env, "entry": entry, "T": "none_default", "T_arg": None,
@@ -172,11 +207,13 @@ def run_item(item, seed, tier):
 
             def one(key, plan):
                 case = {"kind": "time", "env": env, "entry": entry, "T": T, "T_arg": item["T_arg"],
-                        "key": list(key), "actions": []}
+                        "key": list(key), "actions": [], "extra": item.get("extra")}
                 with ctx.guard(env, case, size=10**6):
-                    tl, ts_, acts = twin(ctx, env, entry, T, item["T_arg"], key, plan=plan)
+                    tl, ts_, acts, expl = twin(ctx, env, entry, T, item["T_arg"], key, plan=plan, extra=item.get("extra"))
                     case["actions"] = [a.tolist() for a in acts]
-                    fails, survived = judge(env, T, tl, ts_)
+                    fails, survived = judge(env, T, tl, ts_, expl)
+                    if expl is not None:
+                        ctx.count(f"early_end_{'explained' if expl else 'unexplained'}_{env}")
                     ctx.evals()
                     ctx.count("episodes_time")
                     if survived:
@@ -250,8 +287,9 @@ def replay(case):
         return run["failures"]
     with ctx.guard(env, case):
         if case["kind"] == "time":
-            tl, ts_, acts = twin(ctx, env, entry, case["T"], case["T_arg"], case["key"], actions=case["actions"])
-            for o, s, m in judge(env, case["T"], tl, ts_)[0]:
+            tl, ts_, acts, expl = twin(ctx, env, entry, case["T"], case["T_arg"], case["key"], actions=case["actions"],
+                                       extra=case.get("extra"))
+            for o, s, m in judge(env, case["T"], tl, ts_, expl)[0]:
                 ctx.fail(o, env, s, m, case)
         else:
             res = horizon_episode(envs.bundle(env, entry), case["key"], actions=case["actions"])
